@@ -112,7 +112,16 @@ func (p *Pipeline) Interpolate(interpolationEnv InterpolationEnv, preferRuntimeE
 // be interpolated into later environment variables, we also add the results
 // to interpolationEnv, making the input ordering of p.Env potentially important.
 func (p *Pipeline) interpolateEnvBlock(interpolationEnv InterpolationEnv, preferRuntimeEnv bool) error {
-	return p.Env.Range(func(k, v string) error {
+	if p.Env == nil {
+		return nil
+	}
+
+	// Build the interpolated entries aside, then rewrite the block in the same
+	// order. Renaming entries with Replace while ranging would delete a later
+	// entry that hasn't been visited yet when its name as written equals an
+	// earlier entry's interpolated name (e.g. "$$X" followed by "$X").
+	entries := make([]ordered.Tuple[string, string], 0, p.Env.Len())
+	err := p.Env.Range(func(k, v string) error {
 		// We interpolate both keys and values.
 		intk, err := interpolate.Interpolate(interpolationEnv, k)
 		if err != nil {
@@ -125,7 +134,7 @@ func (p *Pipeline) interpolateEnvBlock(interpolationEnv InterpolationEnv, prefer
 			return err
 		}
 
-		p.Env.Replace(k, intk, intv)
+		entries = append(entries, ordered.Tuple[string, string]{Key: intk, Value: intv})
 
 		// If the variable already existed and we prefer the runtime environment then don't overwrite it
 		if _, exists := interpolationEnv.Get(intk); !(preferRuntimeEnv && exists) {
@@ -134,4 +143,10 @@ func (p *Pipeline) interpolateEnvBlock(interpolationEnv InterpolationEnv, prefer
 
 		return nil
 	})
+	if err != nil {
+		return err
+	}
+
+	*p.Env = *ordered.MapFromItems(entries...)
+	return nil
 }
